@@ -286,6 +286,12 @@ def run_shard(sh, ctx):
 		n = len(coll)
 		qdt = rng.choice(M.DTYPES)
 		queries = [rng.choice(coll) if coll and rng.random() < 0.4 else s for s in gen_collection(rng, rng.randint(1, 5))]
+		if rng.random() < 0.4:
+			# a wide query holding k-mers far beyond what a narrower reference dtype can represent (x + 2^16, x + 2^32 "twins" of reference values)
+			qdt = rng.choice(['u4', 'u8', 'i8', 'i4'])
+			shift = 65536 if qdt in ('u4', 'i4') or rng.random() < 0.5 else 2 ** 32
+			queries = [sorted(set(q) | {x + shift for x in rng.sample(q, min(len(q), 3))} | {shift, shift + 7}) for q in queries]
+			ctx.count('wide_queries_beyond_narrow_reference_range')
 		qarrs = [np.array(q, dtype=qdt) for q in queries]
 		smp = dict(n_refs=n, sizes=[len(s) for s in coll][:20], query_dtype=qdt, n_queries=len(qarrs))
 		for cont_kind in CONTAINERS:
@@ -388,7 +394,7 @@ def finalize(merged, tier, seed, inconclusive):
 	for k in CONTAINERS:
 		if c.get(f'container:{k}', 0) == 0:
 			inconclusive.append(f'container never exercised: {k}')
-	for n in ['calls:array', 'calls:matrix', 'calls:pairwise', 'canary_checks', 'repetitions', 'index_kind:repeats', 'chunking:1', 'chunking:>n', 'pairwise:flat', 'pairwise:square']:
+	for n in ['calls:array', 'calls:matrix', 'calls:pairwise', 'canary_checks', 'repetitions', 'index_kind:repeats', 'chunking:1', 'chunking:>n', 'pairwise:flat', 'pairwise:square', 'wide_queries_beyond_narrow_reference_range']:
 		if c.get(n, 0) == 0:
 			inconclusive.append(f'class never observed: {n}')
 	tc = merged['sets'].get('thread_counts', set())
